@@ -266,6 +266,26 @@ pub fn model_streams(bytes: &[u8], start: usize, id: u16, role: u16) -> StreamMo
         }
         // everything else skipped
     }
+    // an incomplete trailing record of the stream being collected: the payload bytes that are
+    // present already belong to the stream's content (the record's own header says so)
+    let stopped_early = abort_off.is_some() || recs.iter().any(|r| r.version != 1);
+    let t = &bytes[start + tail..];
+    if !stopped_early && t.len() > 8 && t[0] == 1 && (t[1] == wire::STDIN || t[1] == wire::DATA) && u16::from_be_bytes([t[2], t[3]]) == id {
+        if let Some(pos) = order.iter().position(|&x| x == t[1]) {
+            let clen = usize::from(u16::from_be_bytes([t[4], t[5]]));
+            while cur < streams.len() && pos > cur {
+                if streams[cur].term_off.is_none() {
+                    streams[cur].term_off = Some(start + tail);
+                    streams[cur].term_own = false;
+                }
+                cur += 1;
+            }
+            if pos == cur && cur < streams.len() && streams[cur].term_off.is_none() && clen > 0 {
+                let avail = (t.len() - 8).min(clen);
+                streams[cur].content.extend_from_slice(&t[8..8 + avail]);
+            }
+        }
+    }
     StreamModel { streams, replies, abort_off, scanned_to: start + tail }
 }
 
